@@ -115,7 +115,7 @@ func childMain(G int, cases []Case) {
 	w := bufio.NewWriter(os.Stdout)
 	for g := range res {
 		for i, d := range res[g] {
-			fmt.Fprintf(w, "RA-EXP %d %d %s\n", g, i, strconv.Quote(d))
+			fmt.Fprintf(w, "RA-EXP %d %d %s %s\n", g, i, strconv.Quote(d), strconv.Quote(cases[i].Key))
 		}
 	}
 	fmt.Fprintln(w, "RA-EXP-END")
@@ -153,9 +153,13 @@ func pristine(G int, cases []Case) ([][]string, error) {
 		}
 		g, e1 := strconv.Atoi(f[1])
 		i, e2 := strconv.Atoi(f[2])
-		d, e3 := strconv.Unquote(f[3])
+		dq, e3 := strconv.QuotedPrefix(f[3])
 		if e1 != nil || e2 != nil || e3 != nil || g < 0 || g >= G || i < 0 || i >= len(cases) {
 			continue
+		}
+		d, _ := strconv.Unquote(dq)
+		if k, err := strconv.Unquote(strings.TrimSpace(f[3][len(dq):])); err != nil || k != cases[i].Key {
+			return nil, fmt.Errorf("child: case list differs between processes at %d (%q)", i, k)
 		}
 		exp[g][i] = d
 		n++
@@ -178,11 +182,29 @@ func clip(s string) string {
 // bounds the concurrent phase on an overloaded machine (goroutines stop after a complete
 // walk once it has elapsed; it never influences a verdict, only the number of calls).
 func Run(t *testing.T, G, rounds int, maxDur time.Duration, cases []Case) {
+	// one canonical order in every process (case lists are often built from maps)
+	cases = append([]Case(nil), cases...)
+	sort.SliceStable(cases, func(i, j int) bool { return cases[i].Key < cases[j].Key })
+	seen := map[string]bool{}
+	for _, c := range cases {
+		if seen[c.Key] {
+			t.Fatalf("audit bug: duplicate case key %q", c.Key)
+		}
+		seen[c.Key] = true
+	}
 	if os.Getenv(childEnv) != "" {
 		childMain(G, cases)
 		return
 	}
+	tp := time.Now()
 	exp, err := pristine(G, cases)
+	phase := func(name string) {
+		if os.Getenv("VERIF_RA_TIMING") != "" {
+			fmt.Fprintf(os.Stderr, "RA-PHASE %s %.2fs\n", name, time.Since(tp).Seconds())
+		}
+		tp = time.Now()
+	}
+	phase("pristine-child")
 	if err != nil {
 		fmt.Printf("RACEAUDIT-NOTE no pristine-process expectations (%v); comparing with the sequential pass after the concurrent phase only\n", err)
 	}
@@ -221,8 +243,10 @@ func Run(t *testing.T, G, rounds int, maxDur time.Duration, cases []Case) {
 	}
 	close(start)
 	wg.Wait()
+	phase("concurrent")
 	// phase 3
 	after := runSequential(G, cases)
+	phase("after")
 	if exp == nil {
 		exp = after
 	}
